@@ -47,6 +47,7 @@ theorem argOKB_sound (a : Arg) (h : argOKB a = true) : argOK a := by
   | tyvals ixs =>
     simp only [argOKB, List.all_eq_true] at h
     intro p hp; exact operandOKB_sound _ (h p hp)
+  | flags xs => trivial
 
 theorem matchesB_sound : ∀ (fs : List Slot) (as : List Arg), matchesB fs as = true → Matches fs as
   | [], [], _ => .nil
@@ -88,6 +89,36 @@ theorem matchesB_sound : ∀ (fs : List Slot) (as : List Arg), matchesB fs as = 
     cases as with
     | nil => simp [matchesB] at h
     | cons a as => cases a <;> first | exact .tyvals _ (matchesB_sound fs as (by simpa [matchesB] using h)) | simp [matchesB] at h
+  | .flags ks :: fs, as, h => by
+    cases as with
+    | nil => simp [matchesB] at h
+    | cons a as =>
+      cases a with
+      | flags xs =>
+        cases fs with
+        | nil => simp [matchesB] at h
+        | cons f fs' =>
+          cases f with
+          | tyval =>
+            cases as with
+            | nil => simp [matchesB] at h
+            | cons b as' =>
+              cases b with
+              | tyval t o =>
+                simp only [matchesB, Bool.and_eq_true, List.all_eq_true, decide_eq_true_eq] at h
+                exact .flags ks xs t o h.1.1 h.1.2 (matchesB_sound fs' as' h.2)
+              | _ => simp [matchesB] at h
+          | ty =>
+            cases as with
+            | nil => simp [matchesB] at h
+            | cons b as' =>
+              cases b with
+              | ty t =>
+                simp only [matchesB, Bool.and_eq_true, List.all_eq_true, decide_eq_true_eq] at h
+                exact .flagsTy ks xs t h.1.1 h.1.2 (matchesB_sound fs' as' h.2)
+              | _ => simp [matchesB] at h
+          | _ => simp [matchesB] at h
+      | _ => simp [matchesB] at h
   | .cargs :: fs, as, h => by
     cases as with
     | nil => simp [matchesB] at h
@@ -205,6 +236,7 @@ theorem retypeArg_id (ge : GEnv) (e : List (Ident × Ty)) (a : Arg) (h : consist
   | phis incs => rfl
   | nums ks => rfl
   | align a => rfl
+  | flags xs => rfl
   | tyvals ixs =>
     simp only [consistentArg, List.all_eq_true] at h
     simp only [retypeArg]
